@@ -369,6 +369,7 @@ class _GenState:
         self.recent_inputs = []           # translation calls issued before the last table change
         self.last_kind = None
         self.pending_repeat = []          # inputs to re-issue after the next table change
+        self.calls = {}                   # op index -> translation op that produced an attribution handle
         self._ctx = None
 
     # --- context for input generation
@@ -502,6 +503,7 @@ class _GenState:
             op = {"op": "decode", "x": x, "compatible": compat, "attribute": rng.random() < 0.25}
             if op["attribute"]:
                 self.handles.append((idx, "attr"))
+                self.calls[idx] = dict(op)
         else:
             mol, s = gen_smiles(rng, ctx)
             op = {"op": "encode", "strict": rng.random() < 0.6, "attribute": rng.random() < 0.2}
@@ -513,6 +515,7 @@ class _GenState:
                 op["s"] = s
             if op["attribute"]:
                 self.handles.append((idx, "attr"))
+                self.calls[idx] = dict(op)
         self.recent_inputs.append(dict(op))
         yield op
 
@@ -560,4 +563,9 @@ class _GenState:
             else:
                 yield {"op": "observe"}
         else:
-            yield from self.query(idx + 1)
+            # the same call again: a result object shared between calls would now show the corruption
+            src = self.calls.get(h)
+            if src is not None and rng.random() < 0.8:
+                yield dict(src, why="repeat_after_mutate")
+            else:
+                yield from self.query(idx + 1)
